@@ -74,25 +74,26 @@ def nest(d, inner):
     return "{% if true %}" * d + inner + "{% endif %}" * d
 
 
-def concretize(g, prefix=""):
+def concretize(g, prefix="", filt=False):
     """graph -> DictLoader templates; t1 is the entry point. prefix: templates live under a directory-like name ('layouts/t1'):
     the engine names a loaded template after the LAST component, so a guard that mixes the two namings never fires"""
     tmpl = {prefix + "base": "B{% block body %}b{% endblock %}"}
+    F = "{{ 'x' | upcase | append: 'y' }}{% assign z = 'q' | downcase %}" if filt else ""     # filter calls at every level (stack window family)
     for name0, e in g.items():
         name = prefix + name0
         k, to, d = e["k"], prefix + e["to"], e["d"]
         if k == "none":
             tmpl[name] = "leaf"
         elif k == "include":
-            tmpl[name] = "x" + nest(d, f"{{% include '{to}' %}}")
+            tmpl[name] = "x" + F + nest(d, F + f"{{% include '{to}' %}}")
         elif k == "render":
-            tmpl[name] = "x" + nest(d, f"{{% render '{to}' %}}")
+            tmpl[name] = "x" + F + nest(d, F + f"{{% render '{to}' %}}")
         elif k == "extends":
             tmpl[name] = f"{{% extends '{to}' %}}"
         elif k == "extblock":
-            tmpl[name] = "{% extends '" + prefix + "base' %}{% block body %}" + nest(d, f"{{% include '{to}' %}}") + "{% endblock %}"
+            tmpl[name] = "{% extends '" + prefix + "base' %}{% block body %}" + nest(d, F + f"{{% include '{to}' %}}") + "{% endblock %}"
         elif k == "call":
-            tmpl[name] = "{% macro m %}" + nest(d, "y{% call m %}") + "{% endmacro %}{% call m %}"
+            tmpl[name] = "{% macro m %}" + nest(d, "y" + F + "{% call m %}") + "{% endmacro %}{% call m %}"
     return tmpl
 
 
@@ -164,6 +165,36 @@ def replay_graph(case):
     return tmpl, res
 
 
+def _at_depth(k, fn):
+    return fn() if k <= 0 else _at_depth(k - 1, fn)
+
+
+WINDOW = 130        # caller depths swept: more than the frames one recursion level costs, so every alignment of the exhaustion point occurs
+
+
+def replay_window(case):
+    """Stack exhaustion is the cut-off Recursion.tla predicts for this graph.  Where exactly the interpreter's stack runs out depends on how
+    deep the caller already is: sweep the caller's depth over a full period, with filter calls at every level, and require the statement's
+    outcome every time (a cut-off raised INSIDE a filter, a lookup or an expression must still surface as ContextDepthError)."""
+    tmpl = concretize(case["g"], filt=True)
+    env = harness.make_env(templates=tmpl)
+    bad = []
+    for how in ("sync", "async"):
+        for k in range(WINDOW):
+            def go():
+                try:
+                    t = env.get_template("t1")
+                except Exception as e:
+                    return harness.classify(e)
+                return harness.render(t, {}, how)
+            o = timed(lambda: _at_depth(k, go))
+            got = "ok" if "out" in o else o["err"]
+            if got not in ("ok", "ContextDepthError", "TemplateInheritanceError", "DisabledTagError", "SKIPPED"):
+                bad.append((how, k, got, str(o.get("msg", ""))[:160]))
+                break
+    return tmpl, bad
+
+
 def replay_seq(job):
     case, extra = job
     src = c21.concretize(case["seq"])
@@ -227,6 +258,21 @@ def run(tier: str) -> int:
                         {"graph": case["g"], "templates": tmpl, "mode": how, "observed": got, "detail": detail},
                         sig=f"A:{'/'.join(case['g'][t]['k'] for t in sorted(case['g']))}:d={e1['d']}:{got}")
                 break
+    # stack window: graphs whose cut-off is the interpreter's stack, replayed from every caller depth of a period
+    win = [c for c in rrec.emitted if c.get("cut") == "stack"]
+    capw = 64 if tier == "quick" else 600
+    if len(win) > capw:
+        win = rnd.sample(win, capw)
+    for case, (tmpl, bad) in zip(win, par.pmap(replay_window, win, chunk=2)):
+        ck.case(("W", str(case["g"])), nontrivial=True)
+        ck.validated(2 * WINDOW)
+        for how, k, got, msg in bad:
+            e1 = case["g"]["t1"]
+            ck.fail(f"stack exhaustion surfaces as {got} when render is called {k} frames deep (must be ContextDepthError): {msg}",
+                    {"graph": case["g"], "templates": tmpl, "mode": how, "caller_depth": k, "observed": got},
+                    sig=f"W:{'/'.join(case['g'][t]['k'] for t in sorted(case['g']))}:d={e1['d']}:{got}")
+            break
+    ck.cov["stack_window_graphs"] = len(win)
     if graphs:
         ck.sample({"graph": graphs[len(graphs) // 2]["g"], "templates": concretize(graphs[len(graphs) // 2]["g"]),
                    "expected": graphs[len(graphs) // 2]["status"]})
